@@ -37,6 +37,10 @@ ALLOWED_AXIOMS = {
 }
 
 
+CURRENT_TIER = "quick"
+LAST_PO = {}
+
+
 class Ctx:
     def __init__(self, prop, tier, seed):
         self.prop = prop
@@ -175,6 +179,24 @@ def proof_obligations(prop, timeout=1500, extra_targets=()):
     res["disallowed_axioms"] = disallowed
     res["ok"] = (rc == 0 and not disallowed and not res["scan"] and len(blocks) >= len(thms))
     res["discharged"] = len(thms) if rc == 0 else 0
+    if CURRENT_TIER == "thorough" and res["ok"]:
+        # independent re-check of the compiled property file and everything it depends on
+        rc3, out3 = _sh(["coqchk", "-silent", "-o", "-Q", ".", "Verif", "Verif.Properties.%s" % prop], 3000, cwd=COQ)
+        m = re.search(r"\* Axioms:(.*?)\n\s*\n\* Constants", out3, flags=re.S)
+        ax = [a.strip() for a in (m.group(1).split("\n") if m else []) if a.strip() and a.strip() != "<none>"]
+        # kernel primitives (machine integers / binary64) and their specification axioms are part of
+        # Coq's standard library; they enter through Base/MExp.v (float interpreter), no theorem uses them
+        PRIM = ("Coq.Numbers.Cyclic.Int63.", "Coq.Floats.", "Coq.Numbers.Cyclic.Abstract.")
+        prims = [a for a in ax if a.startswith(PRIM)]
+        ax = [a for a in ax if not a.startswith(PRIM)]
+        bad = [a for a in ax if not any(a.endswith(x) or x in a for x in ALLOWED_AXIOMS)]
+        res["coqchk"] = dict(exit=rc3, axioms=ax, disallowed=bad, stdlib_primitives_listed=len(prims),
+                             cmd="cd /verif/coq && coqchk -silent -o -Q . Verif Verif.Properties.%s" % prop)
+        if rc3 != 0 or bad or "type-in-type: <none>" not in out3 or "positivity is assumed: <none>" not in out3:
+            res["ok"] = False
+            res["log"] += "\n[coqchk]\n" + out3[-1500:]
+    LAST_PO.clear()
+    LAST_PO.update(res)
     return res
 
 
@@ -354,6 +376,8 @@ def finish(ctx, level, coverage, assumptions):
               wall_s=round(ctx.elapsed(), 2), violations=len(ctx.violations))
     if ctx.known_hits:
         ev["coverage"]["known_findings_hit"] = sorted(seen)
+    if LAST_PO.get("coqchk"):
+        ev["coverage"]["coqchk"] = LAST_PO["coqchk"]
     os.makedirs(EVID, exist_ok=True)
     json.dump(json_safe(ev), open(os.path.join(EVID, ctx.prop + ".json"), "w"), indent=1, allow_nan=False)
     printed = set()
